@@ -286,6 +286,9 @@ func (e *Engine) canInline(fn *ssa.Function, depth int) bool {
 	for p := fn.Parent(); pk == nil && p != nil; p = p.Parent() {
 		pk = p.Pkg
 	}
+	if pk == nil && fn.Origin() != nil {
+		pk = fn.Origin().Pkg // an instance of a generic function belongs to the package of the generic
+	}
 	if pk == nil || !strings.HasPrefix(pk.Pkg.Path(), "github.com/redis/rueidis") {
 		return false
 	}
